@@ -73,24 +73,29 @@ Lemma consistent fuel o ops :
   let s := reach fuel o ops in NoDup (keys s) /\ Permutation (names s) (keys s).
 Proof. intros s. pose proof (reach_inv fuel o ops) as I. split; [apply (i_keys _ I)|apply (i_names _ I)]. Qed.
 
-Lemma args_on_domain fuel o ops p :
+(* called with the arguments it was registered with: every entry popped by run() still carries them *)
+Lemma args_kept fuel o ops p :
   let s := reach fuel o ops in
-  dropped s = false -> In p (pops s) -> e_args (p_e p) = e_gargs (p_e p).
+  In p (pops s) -> e_args (p_e p) = e_gargs (p_e p).
 Proof.
-  intros s D H. destruct (i_args _ (reach_inv fuel o ops) D) as [_ F]. rewrite Forall_forall in F. apply (F p H).
+  intros s H. destruct (i_args _ (reach_inv fuel o ops)) as [_ F]. rewrite Forall_forall in F. apply (F p H).
 Qed.
 
+(* ... and every pending entry does *)
+Lemma args_kept_pending fuel o ops e :
+  In e (heap (reach fuel o ops)) -> e_args e = e_gargs e.
+Proof.
+  intros H. destruct (i_args _ (reach_inv fuel o ops)) as [F _]. rewrite Forall_forall in F. apply (F e H).
+Qed.
+
+(* the old witness of C18.F17: add with args [7], reschedule, run: now called with [7] *)
 Definition witness_resched : list op :=
   [OAct (AAdd 1 (Some 1%N) ANop 1 (Some 0%N) ([7%N], [])); OAct (AResched (Named 0) 2); OAdvance 5; ORun].
 
-Lemma args_refuted :
+Example resched_keeps_args :
   let s := reach 5 [] witness_resched in
-  dropped s = true /\ exists p, In p (pops s) /\ e_args (p_e p) <> e_gargs (p_e p) /\
-  exists c, In c (calls s) /\ c_args c = noargs.
-Proof.
-  vm_compute. split; auto. eexists. split; [left; reflexivity|]. split; [discriminate|].
-  eexists. split; [left; reflexivity|reflexivity].
-Qed.
+  map c_args (calls s) = [([7%N], [])] /\ map (fun p => e_t (p_e p)) (pops s) = [2%Z] /\ removed s = [0%N].
+Proof. vm_compute. repeat split. Qed.
 
 Lemma run_never_raises fuel o ops k : snd (run_loop k (reach fuel o ops)) = Ok tt.
 Proof. apply run_loop_inv. apply reach_inv. Qed.
@@ -174,24 +179,18 @@ Lemma reschedule_ok n t s s' :
     (forall m g, m <> n -> In (m, g) (events s) -> In (m, g) (events s')) /\
     heap s' = e :: filter (fun x => negb (named n x)) (heap s) /\
     e_name e = n /\ e_t e = t /\
-    (forall e0, In e0 (heap s) -> e_name e0 = n -> In (e_sid e0) (removed s') /\ e_gargs e = e_gargs e0).
+    (forall e0, In e0 (heap s) -> e_name e0 = n ->
+       In (e_sid e0) (removed s') /\ e_args e = e_args e0 /\ e_gargs e = e_gargs e0).
 Proof.
   intros I. unfold reschedule, removeEvent.
+  destruct (lookup_args n (heap s)) as [av gg] eqn:G.
   destruct (take_key n (events s)) as [[f ev']|] eqn:T; [|discriminate].
   destruct (take_key_some _ _ _ _ T) as [Hin Hperm].
-  set (g := match filter (named n) (heap s) with e :: _ => (e_args e, e_gargs e) | [] => (noargs, noargs) end).
-  destruct g as [old gg] eqn:G.
-  unfold gen.T18.RESCHED_PASSES_ARGS. rewrite orb_false_r.
-  set (s2 := if argv_empty gg then drop n ev' s else set_dropped (drop n ev' s)).
-  assert (E2 : events s2 = ev' /\ heap s2 = filter (fun x => negb (named n x)) (heap s) /\
-               removed s2 = map e_sid (filter (named n) (heap s)) ++ removed s).
-  { unfold s2. destruct (argv_empty gg); simpl; auto. }
-  destruct E2 as (Ev & Hp & Rm). clearbody s2.
   unfold addEvent.
-  assert (F : has_key n (events s2) = false).
-  { rewrite Ev. apply has_key_false. pose proof (Permutation_NoDup Hperm (i_keys _ I)) as ND. inversion ND; auto. }
+  assert (F : has_key n (events (drop n ev' s)) = false).
+  { simpl. apply has_key_false. pose proof (Permutation_NoDup Hperm (i_keys _ I)) as ND. inversion ND; auto. }
   rewrite F. intros E. inversion E; subst. clear E.
-  exists f. eexists. split; [exact Hin|]. simpl. rewrite Hp, Rm. split; [left; reflexivity|].
+  exists f. eexists. split; [exact Hin|]. simpl. split; [left; reflexivity|].
   split; [intros m g0 Hm Hg; right; eapply take_key_in_rest; eauto|]. split; [reflexivity|].
   split; [reflexivity|]. split; [reflexivity|].
   intros e0 He0 Hn. split.
@@ -201,8 +200,8 @@ Proof.
     assert (In1 : In n (map e_name (heap s))) by (rewrite <- Hn; apply in_map; auto).
     pose proof (filter_named_one n (heap s) ND In1) as One.
     assert (He0f : In e0 (filter (named n) (heap s))) by (apply filter_In; split; auto; apply name_eqb_eq; auto).
-    unfold g in G. destruct (filter (named n) (heap s)) as [|x [|y l]]; simpl in One; try discriminate.
-    destruct He0f as [->|[]]. inversion G; subst. reflexivity.
+    unfold lookup_args in G. destruct (filter (named n) (heap s)) as [|x [|y l]]; simpl in One; try discriminate.
+    destruct He0f as [->|[]]. inversion G; subst. split; reflexivity.
 Qed.
 
 (* ---- non-vacuity: concrete histories exercising the hypotheses ---- *)
@@ -212,7 +211,7 @@ Definition ex_raise : list op :=
    OAct (AAdd 3 None ANop 2 (Some 1%N) ([4%N], [(1%N, 2%N)])); OAdvance 3; ORun].
 Example ex_raise_runs_all :
   let s := reach 9 [] ex_raise in
-  map c_reg (calls s) = [0; 1; 2]%N /\ heap s = [] /\ fuelout s = false /\ dropped s = false /\ nsched s = 3%N.
+  map c_reg (calls s) = [0; 1; 2]%N /\ heap s = [] /\ fuelout s = false /\ nsched s = 3%N.
 Proof. vm_compute. repeat split. Qed.
 
 (* a periodic event with count 3 whose function raises runs three times *)
@@ -234,5 +233,5 @@ Proof. vm_compute. repeat split. Qed.
 
 Example ex_resched_noargs :
   let s := reach 9 [] [OAct (AAdd 1 (Some 0%N) ANop 1 (Some 0%N) noargs); OAct (AResched (Named 0) 4); OAdvance 2; ORun; OAdvance 3; ORun] in
-  map c_clock (calls s) = [5]%Z /\ dropped s = false /\ removed s = [0%N].
+  map c_clock (calls s) = [5]%Z /\ removed s = [0%N].
 Proof. vm_compute. repeat split. Qed.
